@@ -1145,6 +1145,10 @@ Proof.
   unfold nice. intros H. apply andb_prop in H. destruct H as [H _]. apply andb_prop in H. destruct H as [H1 H2].
   destruct (h_class h); try discriminate H1. destruct (h_module h); try discriminate H2. eauto.
 Qed.
+Lemma nice_not_v0 h subs : nice h subs = true -> h_kind h <> KFunctionV0.
+Proof.
+  intros H K. unfold nice in H. rewrite K in H. rewrite Bool.andb_false_r in H. discriminate H.
+Qed.
 Lemma nice_generic h subs : nice h subs = true -> ukind_of (h_kind h) = UGeneric -> forallb leaf_plain subs = true.
 Proof.
   unfold nice. intros H U. apply andb_prop in H. destruct H as [_ H].
@@ -1208,6 +1212,10 @@ Section Audit.
   Proof.
     intros H. destruct (nice_hstr _ _ H) as [c [m [Hc Hm]]]. unfold self_safe.
     destruct (kind_eqb (h_kind h) KJson); [eauto|]. unfold node_name. rewrite Hc, Hm. cbn [jqual bind]. eauto.
+  Qed.
+  Lemma self_safe_of_ok h subs : nice h subs = true -> exists b, self_safe_of E T h subs = Ok b.
+  Proof.
+    intros H. rewrite (self_safe_of_not_v0 E T h subs (nice_not_v0 _ _ H)). eapply self_safe_ok; exact H.
   Qed.
   Lemma own_unsafe_ok h subs : nice h subs = true -> exists u, own_unsafe E T h = Ok u.
   Proof.
@@ -1303,6 +1311,10 @@ Section WalkTotal.
     destruct (h_kind h) eqn:K; try (rewrite Hc, Hm; cbn [jfmt]; eauto); eauto.
     destruct (nice_json _ _ H K) as [_ [t ->]]. cbn [jfmt]. eauto.
   Qed.
+  Lemma format_of_ok h subs : nice h subs = true -> exists val, format_of h subs = Ok val.
+  Proof.
+    intros H. rewrite (format_of_not_v0 h subs (nice_not_v0 _ _ H)). eapply node_format_ok; exact H.
+  Qed.
 
   Lemma slice_skipped h subs : nice h subs = true -> h_kind h = KSlice -> is_skipped E skipped h = true.
   Proof. intros H K. unfold is_skipped. rewrite (nice_slice _ _ H K), Hskip. reflexivity. Qed.
@@ -1362,8 +1374,8 @@ Section WalkTotal.
     end.
   Lemma walk_node_eq fuel path name level last h subs :
     walk E T skipped R (S fuel) path name level last (Node h subs)
-    = s_lift (node_format h) (fun val =>
-      s_lift (self_safe E T h) (fun ss =>
+    = s_lift (format_of h subs) (fun val =>
+      s_lift (self_safe_of E T h subs) (fun ss =>
       s_lift (match h_kind h with KJson => Ok [] | _ => unsafe E T R (Node h subs) end) (fun u =>
       s_cons {| r_level := level; r_key := name; r_val := val; r_self_safe := ss;
                 r_safe := match u with [] => true | _ => false end; r_last := last |}
@@ -1436,7 +1448,7 @@ Section WalkTotal.
             Forall safe_row (fst (walk E T skipped R (S fuel) path name level last (Node h subs)))).
     Proof.
       pose proof (Hnice h subs Hs) as Hn.
-      destruct (node_format_ok _ _ Hn) as [val NF]. destruct (self_safe_ok E T h subs Hn) as [ss SS].
+      destruct (format_of_ok _ _ Hn) as [val NF]. destruct (self_safe_of_ok E T h subs Hn) as [ss SS].
       destruct (unsafe_total E T R Hnice (S k) (Node h subs) Hs Hf eq_refl unsafe_fuel [] Hku) as [u0 Hu0].
       destruct kids_ok as [[HK1 HK2] HK3].
       rewrite walk_node_eq, NF. cbn [s_lift]. rewrite SS. cbn [s_lift].
@@ -1468,7 +1480,7 @@ Section WalkTotal.
       /\ r_level r = level.
     Proof.
       pose proof (Hnice h subs Hs) as Hn.
-      destruct (node_format_ok _ _ Hn) as [val NF]. destruct (self_safe_ok E T h subs Hn) as [ss SS].
+      destruct (format_of_ok _ _ Hn) as [val NF]. destruct (self_safe_of_ok E T h subs Hn) as [ss SS].
       destruct (unsafe_total E T R Hnice (S k) (Node h subs) Hs Hf eq_refl unsafe_fuel [] Hku) as [u0 Hu0].
       rewrite walk_node_eq, NF. cbn [s_lift]. rewrite SS. cbn [s_lift].
       destruct (kind_eqb (h_kind h) KJson) eqn:KJ.
